@@ -1,4 +1,4 @@
-(* C03 — integral rings, part A: neg, sub, constants, reduce (see ProofsInt.v for statements and tactics) *)
+(* C03 — integral rings, part A: neg, sub, constants (see ProofsInt.v for statements and tactics) *)
 From Coq Require Import ZArith Bool Lia List.
 From C03 Require Import Model ProofsBase ProofsInt.
 Import ListNotations.
@@ -20,13 +20,5 @@ Qed.
 Lemma consts_exact sb sg cb p : Consts_stmt sb sg cb p.
 Proof.
   unfold Consts_stmt, Pre; start Hc Hp sg. all: unfold mOneZ; open_model. all: strip; lia.
-Qed.
-
-Lemma reduce_exact sb sg cb p : Reduce_stmt sb sg cb p.
-Proof.
-  unfold Reduce_stmt, Pre; intros [Hc Hp]; intros y Hy; unfold in_storage, in_range in Hy; cfg_cases Hc sg; max_lit Hp.
-  all: cbn [bits sgn] in Hy.
-  all: unfold reduceZ, reduce; open_model; lit_eval.
-  all: strip. all: try lia. 
 Qed.
 
